@@ -464,16 +464,9 @@ class ScheduleNTasksInTimeIntervals(TaskConstraint):
                     for lower_bound, upper_bound in self.list_of_time_intervals
                 ]
             )
-            task_in_time_intervals = z3.Bool(
-                f"InTimeIntervalTask_{task.name}_{uuid.uuid4().int}"
-            )
-            # an equivalence, so that a task that lies in an interval is counted:
-            # otherwise the 'max' and 'exact' kinds would not bound the count from above
-            self.set_z3_assertions(
-                task_in_time_intervals == z3.And(task._scheduled, inside_any_interval)
-            )
-            # each task is counted once, even if intervals overlap
-            all_bools.append(task_in_time_intervals)
+            # each task is counted once, even if intervals overlap. No auxiliary
+            # variable: the constraint can then be negated (Not, Xor) as a whole
+            all_bools.append(z3.And(task._scheduled, inside_any_interval))
             # a task that does not lie in a time interval is scheduled outside of it:
             # it cannot partially overlap the interval
             for lower_bound, upper_bound in self.list_of_time_intervals:
